@@ -120,6 +120,10 @@ def _len_term(t):
     return ("t", strip_sites(t))
 
 
+# in-place writers that never change the length of the buffer they write into
+_LEN_PRESERVING = ("read", "copy_from_slice", "clone_from_slice", "fill", "fill_bytes", "try_fill_bytes", "reverse", "sort", "sort_unstable", "swap", "rotate_left", "rotate_right", "read_exact", "finalize_xof_into", "squeeze", "zeroize", "iter_mut")
+
+
 # lengths learnt from `dst.copy_from_slice(src)` (it returns only if |src| == |dst|): stripped src term -> length form
 _KNOWN_LEN = {}
 
@@ -698,6 +702,23 @@ def int_form(t, wrap=False):
         sn = slice_form(x, wrap)
         if sn is not None:
             return ("sub", sn[2], sn[1])
+        # the length of a buffer after calls that write into it without resizing it is the length it was created with
+        y = peel(x)
+        for _ in range(8):
+            if y.op == "mutcall" and cname(y).split("::")[-1] in _LEN_PRESERVING:
+                y = peel(y.a[2][y.a[1]])
+            elif y.op == "call" and cname(y) in ("DerefMut::deref_mut", "Deref::deref", "AsMut::as_mut", "AsRef::as_ref", "Vec::<T, A>::as_mut_slice", "Vec::<T, A>::as_slice", "slice::<impl [T]>::to_vec", "Clone::clone") and len(y.a[1]) == 1:
+                y = peel(y.a[1][0])
+            else:
+                break
+        if y.op == "call" and cname(y) in ("alloc::from_elem", "vec::from_elem", "from_elem") and len(y.a[1]) == 2:
+            return int_form(y.a[1][1], wrap)
+        if y.op == "repeat" and isinstance(y.a[1], int):
+            return ("c", y.a[1])
+        if y.op == "agg" and y.a[0][0] == "array":
+            return ("c", len(y.a[1]))
+        if y is not peel(x):
+            return ("len", strip_sites(y))
         return ("len", strip_sites(peel(x)))
     if t.op == "field" and t.a[1] == "0" and t.a[0].op == "bin" and t.a[0].a[0] in ("AddWithOverflow", "SubWithOverflow"):
         # checked form: the Assert on `.1` precedes every use of `.0`, so `.0` is the exact result
